@@ -67,7 +67,7 @@ theorem isRC_pollQuiet : PollQuiet isRC :=
   ⟨fun _ _ => rfl, fun _ _ _ => rfl, fun _ _ => rfl, fun _ _ => rfl, fun _ _ => rfl, fun _ => rfl, fun _ => rfl, fun _ _ => rfl⟩
 
 theorem isRC_execQuiet : ExecQuiet isRC :=
-  ⟨fun _ => rfl, fun _ _ _ => rfl, fun _ _ => rfl, rfl, fun _ _ => rfl⟩
+  ⟨⟨⟨fun _ => rfl, rfl, fun _ _ => rfl⟩, fun _ _ => rfl⟩, fun _ _ _ => rfl⟩
 
 structure G where
   sd : Bool := false      -- `Book.streamDone`
@@ -170,7 +170,7 @@ theorem inv11_pollServer (g : G) (s : St) (now : Nat) (h : Inv11 g s) (h0 : s.ob
   unfold pollServer
   simp only
   split
-  · rw [← go_filter, fx_dropServer isRC_execQuiet, go_filter]
+  · rw [← go_filter, fx_dropServer isRC_execQuiet.toWakeQuiet, go_filter]
     exact ⟨hk.1, fun hs => by rw [dropServer_done]; exact hk.2 hs⟩
   · split
     · exact hk
